@@ -14,6 +14,9 @@ func propC17(c *Ctx, r *Report) {
 	c.runPartialSetters(r, "setter.total", "setters", inPkgs("msl/internal/codegen", "glsl/internal/codegen", "hlsl/internal/codegen", "spirv/internal/codegen", "msl", "glsl", "hlsl", "spirv"), setterExceptions)
 	r.Clauses = append(r.Clauses, "block recursion (E3): the statement walkers of the four backends that collect the globals / calls an entry point uses (interface lists, per-entry-point resource sets) descend into every nested block")
 	c.runBlockWalkers(r, "operands", "backends", inPkgs("spirv/internal/codegen", "msl/internal/codegen", "hlsl/internal/codegen", "glsl/internal/codegen"), nil)
+	r.Clauses = append(r.Clauses, guardAgreeClause)
+	c.runGuardAgree(r, "guard.agree", inPkgs("msl", "hlsl", "glsl", "spirv"))
+	r.floor("guard.agree", 4)
 	r.floor("backends.Block.walkers", 10)
 	r.floor("setters", 2)
 }
